@@ -324,6 +324,75 @@ theorem stratify_with_eq (m : Model α) (hnd : (m.strats.map (·.name)).Nodup) (
     refine Eq.trans (add_transition_flow_eq _ _ _ _ _ _ _ _ _) ?_
     rfl
 
+/-! ### derived-output requests -/
+
+/-- the public method a request entry stands for -/
+def glueRequest (m : Model α) (e : ReqEntry α) : Res (Model α) :=
+  match e.req with
+  | .flow fname ss ds raw => request_output_for_flow m e.name fname (some ss) (some ds) e.save raw
+  | .comp names strata => request_output_for_compartments m e.name names (some strata) e.save
+  | .agg sources => request_aggregate_output m e.name sources e.save
+  | .cum source start => request_cumulative_output m e.name source start e.save
+  | .func f sources => request_function_output m e.name f sources e.save
+  | .cv n => if n == e.name then request_computed_value_output m e.name e.save else addRequest m e
+
+theorem forM_guard_all {β : Type} (P : β → Bool) (m1 m2 : String) :
+    ∀ (l : List β), erase (l.forM (fun x => guardE (P x) m1)) = erase (guardE (l.all P) m2)
+  | [] => rfl
+  | x :: xs => by
+    rw [List.forM_eq_forM, List.forM_cons, ← List.forM_eq_forM]
+    cases hp : P x with
+    | false => simp only [List.all_cons, hp, Bool.false_and]; rfl
+    | true =>
+      simp only [List.all_cons, hp, Bool.true_and]
+      exact forM_guard_all P m1 m2 xs
+
+/-- every `request_*` method adds the request `Build.addRequest` adds and refuses exactly what it refuses (finalised model, name already
+requested, no matching flow / compartment, a source that has not been requested) -/
+theorem request_eq (m : Model α) (e : ReqEntry α) : erase (glueRequest m e) = erase (addRequest m e) := by
+  obtain ⟨name, req, save⟩ := e
+  cases req with
+  | flow fname ss ds raw =>
+    simp only [glueRequest, addRequest, request_output_for_flow, _assert_not_finalized, hasRequest, Option.getD_some]
+    refine erase_guard_bind _ _ _ (fun _ => ?_)
+    refine erase_guard_bind _ _ _ (fun _ => ?_)
+    exact erase_guard_bind _ _ _ (fun _ => rfl)
+  | comp names strata =>
+    simp only [glueRequest, addRequest, request_output_for_compartments, _assert_not_finalized, hasRequest, Option.getD_some]
+    refine erase_guard_bind _ _ _ (fun _ => ?_)
+    refine erase_guard_bind _ _ _ (fun _ => ?_)
+    exact erase_guard_bind _ _ _ (fun _ => rfl)
+  | agg sources =>
+    simp only [glueRequest, addRequest, request_aggregate_output, _assert_not_finalized]
+    refine erase_guard_bind _ _ _ (fun _ => ?_)
+    refine erase_guard_bind _ _ _ (fun _ => ?_)
+    exact erase_bind_congr (forM_guard_all _ _ _ _) (fun _ => rfl)
+  | cum source start =>
+    simp only [glueRequest, addRequest, request_cumulative_output, _assert_not_finalized, hasRequest]
+    refine erase_guard_bind _ _ _ (fun _ => ?_)
+    refine erase_guard_bind _ _ _ (fun _ => ?_)
+    exact erase_guard_bind _ _ _ (fun _ => rfl)
+  | func f sources =>
+    simp only [glueRequest, addRequest, request_function_output, _assert_not_finalized]
+    refine erase_guard_bind _ _ _ (fun _ => ?_)
+    refine erase_guard_bind _ _ _ (fun _ => ?_)
+    exact erase_bind_congr (forM_guard_all _ _ _ _) (fun _ => rfl)
+  | cv n =>
+    simp only [glueRequest]
+    by_cases h : (n == name) = true
+    · simp only [h, if_true, addRequest, request_computed_value_output, _assert_not_finalized, hasRequest]
+      have hn : n = name := by simpa using h
+      subst hn
+      refine erase_guard_bind _ _ _ (fun _ => ?_)
+      exact erase_guard_bind _ _ _ (fun _ => rfl)
+    · simp only [h, if_false]
+      rfl
+
+theorem add_computed_value_eq (m : Model α) (name : String) (f : Expr α) :
+    erase (add_computed_value_func m name f) = erase (addComputedValue m name f) := by
+  unfold add_computed_value_func addComputedValue
+  exact if_fail_eq_guard _ _ _ _
+
 /-- for every model the build API can produce -/
 theorem stratify_with_eq_reachable {m : Model α} (hr : Spec.ReachableB m) (s : Strat α) :
     erase (stratify_with m s) = erase (stratifyWith m s) :=
@@ -332,6 +401,8 @@ theorem stratify_with_eq_reachable {m : Model α} (hr : Spec.ReachableB m) (s : 
 end
 
 #print axioms add_flow_eq
+#print axioms request_eq
+#print axioms add_computed_value_eq
 #print axioms stratify_with_eq
 #print axioms stratify_with_eq_reachable
 #print axioms strata_exist_eq
